@@ -39,6 +39,8 @@ func init() {
 			{ID: "R15q", Floor: 1, Doc: "TraverseToFile creates its destination truncating (os.Create, or OpenFile with O_TRUNC): the file is the CAR of this traversal and nothing more", Run: ruleR15q},
 			{ID: "R15r", Floor: 1, Doc: "without an index the header announces none: in traversalCar.WriteV2Header no With*Padding / WithDataSize is applied after IndexOffset was set to zero", Run: ruleR15r},
 			{ID: "R15t", Floor: 1, Doc: "the announced size counts a block once, as the writing pass writes it once: the counting link system adds a section's size only when the block is loaded for the first time", Run: ruleR15t},
+			{ID: "R15u", Floor: 1, Doc: "the payload pass starts its offsets at the size of the CARv1 header just written: the initial offset of the teeing link system in WriteV1 includes no padding and no data offset", Run: ruleR15u},
+			{ID: "R15v", Floor: 3, Doc: "traversalCar.WriteTo returns the number of bytes it handed to the writer: the count of every counting write (header, payload pass, index padding, index) is part of every return that follows it", Run: ruleR15v},
 			{ID: "R15c", Floor: 1, Doc: "size-mismatch guard", Run: ruleR15c},
 			{ID: "R15i", Floor: 8, Doc: "the announced section size and the written framing come from the same length formula (= R01b)", Run: ruleR01b},
 		},
